@@ -121,7 +121,7 @@ pub struct Object {
 impl FromMeta<'_> for Object {
     fn from_meta(meta: &Sp<Meta>) -> Result<Self, FromMetaError<'_>> {
         meta.parse_object(|m| Ok(Object {
-            layer: m.expect_renamed_field::<i32>("unknown", "layer")? as u16,
+            layer: m.expect_renamed_field::<u16>("unknown", "layer")?,
             pos: m.expect_field("pos")?,
             size: m.expect_field("size")?,
             quads: m.expect_field("quads")?,
@@ -165,14 +165,14 @@ impl FromMeta<'_> for Quad {
     fn from_meta(meta: &Sp<Meta>) -> Result<Self, FromMetaError<'_>> {
         meta.parse_variant()?
             .variant("rect", |m| Ok(Quad {
-                anm_script: m.expect_field::<i32>("anm_script")? as u16,
+                anm_script: m.expect_field::<u16>("anm_script")?,
                 extra: QuadExtra::Rect {
                     pos: m.expect_field("pos")?,
                     size: m.expect_field("size")?,
                 },
             }))
             .variant("strip", |m| Ok(Quad {
-                anm_script: m.expect_field::<i32>("anm_script")? as u16,
+                anm_script: m.expect_field::<u16>("anm_script")?,
                 extra: QuadExtra::Strip {
                     start: m.expect_field("start")?,
                     end: m.expect_field("end")?,
@@ -218,7 +218,7 @@ impl FromMeta<'_> for Instance {
     fn from_meta(meta: &Sp<Meta>) -> Result<Self, FromMetaError<'_>> {
         meta.parse_any_variant(|ident, meta| Ok(Instance {
             object: ident.clone(),
-            unknown: meta.get_field::<i32>("unknown")?.unwrap_or(256) as u16,
+            unknown: meta.get_field::<u16>("unknown")?.unwrap_or(256),
             pos: meta.expect_field("pos")?,
         }))
     }
@@ -428,8 +428,8 @@ fn write_std(
 ) -> WriteResult {
     let start_pos = f.pos()?;
 
-    f.write_u16(std.objects.len() as u16)?;
-    f.write_u16(std.objects.values().map(|x| x.quads.len()).sum::<usize>() as u16)?;
+    f.write_u16(llir::fit_field(emitter, "number of objects", std.objects.len())?)?;
+    f.write_u16(llir::fit_field(emitter, "total number of quads", std.objects.values().map(|x| x.quads.len()).sum::<usize>())?)?;
 
     let instances_offset_pos = f.pos()?;
     f.write_u32(0)?;
@@ -502,7 +502,7 @@ fn read_object(f: &mut BinReader, emitter: &impl Emitter, expected_id: usize) ->
 }
 
 fn write_object(f: &mut BinWriter, emitter: &impl Emitter, format: &dyn FileFormat, id: usize, x: &Object) -> WriteResult {
-    f.write_u16(id as u16)?;
+    f.write_u16(llir::fit_field(emitter, "object id", id)?)?;
     f.write_u16(x.layer)?;
     f.write_f32s(&x.pos)?;
     f.write_f32s(&x.size)?;
@@ -597,7 +597,7 @@ fn read_instance(f: &mut BinReader, emitter: &impl Emitter, objects: &IndexMap<S
 
 fn write_instance(f: &mut BinWriter, emitter: &dyn Emitter, inst: &Instance, objects: &IndexMap<Sp<Ident>, Object>) -> WriteResult {
     match objects.get_index_of(&inst.object) {
-        Some(object_index) => f.write_u16(object_index as u16)?,
+        Some(object_index) => f.write_u16(llir::fit_field(emitter, "object index", object_index)?)?,
         None => return Err(emitter.as_sized().emit(error!(
             message("no object named {}", inst.object),
             primary(&inst.object, "not an object"),
@@ -764,11 +764,15 @@ impl InstrFormat for StdHooks06 {
         Ok(ReadInstr::Instr(RawInstr { time, opcode: opcode as _, param_mask: 0, args_blob, ..RawInstr::DEFAULTS }))
     }
 
-    fn write_instr(&self, f: &mut BinWriter, _: &dyn Emitter, instr: &RawInstr) -> WriteResult {
+    fn write_instr(&self, f: &mut BinWriter, emitter: &dyn Emitter, instr: &RawInstr) -> WriteResult {
         f.write_i32(instr.time)?;
         f.write_u16(instr.opcode)?;
         f.write_u16(12)?;  // this version writes argsize rather than instr size
-        assert_eq!(instr.args_blob.len(), 12);
+        if instr.args_blob.len() != 12 {
+            return Err(emitter.as_sized().emit(error!(
+                "instruction arguments are {} bytes long, but this format requires exactly 12 bytes", instr.args_blob.len(),
+            )));
+        }
         f.write_all(&instr.args_blob)?;
         Ok(())
     }
@@ -804,10 +808,10 @@ impl InstrFormat for StdHooks10 {
         Ok(ReadInstr::Instr(RawInstr { time, opcode: opcode as u16, param_mask: 0, args_blob, ..RawInstr::DEFAULTS }))
     }
 
-    fn write_instr(&self, f: &mut BinWriter, _: &dyn Emitter, instr: &RawInstr) -> WriteResult {
+    fn write_instr(&self, f: &mut BinWriter, emitter: &dyn Emitter, instr: &RawInstr) -> WriteResult {
         f.write_i32(instr.time)?;
         f.write_u16(instr.opcode)?;
-        f.write_u16(self.instr_size(instr) as u16)?;
+        f.write_u16(llir::fit_field(emitter, "instruction size", self.instr_size(instr))?)?;
         f.write_all(&instr.args_blob)?;
         Ok(())
     }
